@@ -129,3 +129,43 @@ Definition predict_C11_client (c : c11_client_case) : json :=
   JObj [(s "tags", JArr []);
         (s "result", JStr (client_result_str (go_client_parse
            {| rc_status := Z.to_N st; rc_empty := emp; rc_as_result := ar; rc_as_validation := av; rc_as_error := ae |})))].
+
+(* ---- the client behind net/http's framing ---------------------------------------------------- *)
+(* What the transport makes of the peer's bytes before the emitted client sees anything
+   (internal/clientgen/generator.go:583-602): httpClient.Do fails when the status line or a framing
+   header (Content-Length, Transfer-Encoding) cannot be read; otherwise io.ReadAll(resp.Body) runs
+   BEFORE the status is looked at and fails when the body ends before its announced length (or a chunk
+   is malformed).  Only a body that net/http delivered completely reaches go_client_parse; the
+   rc_* booleans of the case then describe the DELIVERED bytes (cut to the announced length when the
+   peer sent more). *)
+Inductive framing := FrComplete | FrTransportError | FrBodyCutShort.
+
+Inductive framed_result :=
+  | FRTransport                 (* "failed to execute request" *)
+  | FRRead                      (* "failed to read response body" *)
+  | FRParsed (c : client_result).
+
+Definition go_client_framed (f : framing) (r : resp_case) : framed_result :=
+  match f with
+  | FrTransportError => FRTransport
+  | FrBodyCutShort => FRRead
+  | FrComplete => FRParsed (go_client_parse r)
+  end.
+
+Definition framing_of_nat (n : nat) : framing :=
+  match n with 0 => FrComplete | 1 => FrTransportError | _ => FrBodyCutShort end.
+
+Definition framed_result_str (c : framed_result) : str :=
+  match c with
+  | FRTransport => s "transport-error"
+  | FRRead => s "read-error"
+  | FRParsed c => client_result_str c
+  end.
+
+(* case = (framing, the client case on the delivered bytes) *)
+Definition c11_framed_case := (nat * c11_client_case)%type.
+Definition predict_C11_client_framed (c : c11_framed_case) : json :=
+  let '(fr, (st, emp, ar, av, ae)) := c in
+  JObj [(s "tags", JArr []);
+        (s "result", JStr (framed_result_str (go_client_framed (framing_of_nat fr)
+           {| rc_status := Z.to_N st; rc_empty := emp; rc_as_result := ar; rc_as_validation := av; rc_as_error := ae |})))].
